@@ -511,6 +511,9 @@ func init() {
 	// ----- misc no-ops -----
 	// HandleCrash logs and re-panics (ReallyCrash): as a deferred call it leaves a propagating panic alone
 	reg("k8s.io/apimachinery/pkg/util/runtime.HandleCrash|k8s.io/apimachinery/pkg/util/runtime.HandleError", nop)
+	reg("k8s.io/apimachinery/pkg/util/naming.GetNameFromCallsite", func(m *M, fn *ssa.Function, a []Value, r ssa.Value) Value {
+		return strC("callsite")
+	})
 	reg("runtime.Gosched|runtime.KeepAlive|runtime.SetFinalizer|runtime/debug.PrintStack", nop)
 	reg("os.Getenv", func(m *M, fn *ssa.Function, a []Value, r ssa.Value) Value {
 		m.ex.noteAssumption("environment variables are unset")
